@@ -22,7 +22,7 @@ import (
 	"time"
 
 	"verifharness/internal/core"
-	_ "verifharness/internal/props"
+	"verifharness/internal/props"
 )
 
 const verifRoot = "/verif"
@@ -49,6 +49,8 @@ func main() {
 		os.Exit(runWorker(os.Args[2:]))
 	case "replay":
 		os.Exit(runReplay(os.Args[2:]))
+	case "c18fresh":
+		os.Exit(props.C18FreshMain(os.Args[2:]))
 	default:
 		fmt.Fprintln(os.Stderr, "unknown mode", os.Args[1])
 		os.Exit(2)
@@ -285,6 +287,9 @@ func runParent(args []string) int {
 		}
 	}
 
+	if os.Getenv("VERIF_DEBUG_SKIP_WORKERS") == "1" {
+		jobs = jobs[:1] // debugging aid for the fuzz / coverage plumbing: a single shard
+	}
 	outcomes := runJobs(*prop, tier, seed, jobs, workdir, *nshards)
 	if len(raceJobs) > 0 {
 		rp := def.RaceProcs
@@ -299,6 +304,9 @@ func runParent(args []string) int {
 		m.add(oc, workdir)
 	}
 	m.collectRaceReports(outcomes)
+	if def.FuzzTarget != "" && tier == core.Thorough {
+		m.runNativeFuzz(workdir)
+	}
 	code := m.finish(start, workdir)
 	return code
 }
@@ -534,6 +542,78 @@ func raceKey(blk string) string {
 	return strings.Join(uniq, "|")
 }
 
+// harnessDir is the module directory (the binaries live in <harness>/bin*/).
+func harnessDir() string {
+	exe, _ := os.Executable()
+	return filepath.Dir(filepath.Dir(exe))
+}
+
+// runNativeFuzz runs the property's coverage-guided fuzz target for a fixed number of
+// executions. A failing input becomes a violation whose witness is the crasher file.
+func (m *merge) runNativeFuzz(workdir string) {
+	execs := m.def.FuzzExecs
+	if v, err := strconv.ParseUint(os.Getenv("VERIF_FUZZ_EXECS"), 10, 64); err == nil && v > 0 {
+		execs = v // debugging aid: smaller budget
+	}
+	args := []string{"test"}
+	if mf := os.Getenv("VERIF_MODFLAG"); mf != "" {
+		args = append(args, mf)
+	}
+	args = append(args, "./fuzz", "-run", "^$", "-fuzz", "^"+m.def.FuzzTarget+"$", "-fuzztime", fmt.Sprintf("%dx", execs),
+		"-test.fuzzcachedir", filepath.Join(workdir, "fuzzcache"))
+	cmd := exec.Command("go", args...)
+	cmd.Dir = harnessDir()
+	var out bytes.Buffer
+	cmd.Stdout, cmd.Stderr = &out, &out
+	t0 := time.Now()
+	err := cmd.Run()
+	text := out.String()
+	done := uint64(0)
+	interesting := uint64(0)
+	for _, l := range strings.Split(text, "\n") {
+		if i := strings.Index(l, "execs: "); i >= 0 {
+			fmt.Sscanf(l[i:], "execs: %d", &done)
+		}
+		if i := strings.Index(l, "(total: "); i >= 0 {
+			fmt.Sscanf(l[i:], "(total: %d)", &interesting)
+		}
+	}
+	m.extra["native_fuzz_execs"] = done
+	m.extra["native_fuzz_corpus_entries"] = interesting
+	m.extra["native_fuzz_wall_ms"] = uint64(time.Since(t0).Milliseconds())
+	m.evals += done
+	m.notes = append(m.notes, fmt.Sprintf("native fuzz engine: target %s, %d executions requested, %d run, corpus %d entries", m.def.FuzzTarget, execs, done, interesting))
+	if err == nil {
+		return
+	}
+	// a failing input: move the crasher out of testdata so that it does not poison later runs
+	crasher := ""
+	if i := strings.Index(text, "Failing input written to "); i >= 0 {
+		rest := text[i+len("Failing input written to "):]
+		if j := strings.IndexAny(rest, "\n\r"); j >= 0 {
+			rest = rest[:j]
+		}
+		crasher = filepath.Join(harnessDir(), "fuzz", strings.TrimSpace(rest))
+	}
+	if !strings.Contains(text, "VIOLATION property=") && crasher == "" {
+		m.harnessErr = append(m.harnessErr, "native fuzz run failed without a failing input: "+tail(text, 1500))
+		return
+	}
+	kept := ""
+	if crasher != "" {
+		if b, rerr := os.ReadFile(crasher); rerr == nil {
+			dir := filepath.Join(outRoot, "replays", m.prop)
+			_ = os.MkdirAll(dir, 0o755)
+			kept = filepath.Join(dir, "fuzz-"+filepath.Base(crasher))
+			_ = os.WriteFile(kept, b, 0o644)
+			_ = os.Remove(crasher)
+		}
+	}
+	m.violCount++
+	m.viol = append(m.viol, core.Witness{Property: m.prop, Tier: m.tier, Seed: m.seed, Section: "native-fuzz", Index: 0,
+		Aspect: "fuzz/" + m.def.FuzzTarget, Detail: core.W{"target": m.def.FuzzTarget, "crasher_file": kept, "output": tail(text, 3000)}})
+}
+
 func (m *merge) unionDigests() uint64 {
 	var all []uint64
 	for _, f := range m.digestFiles {
@@ -671,17 +751,17 @@ func (m *merge) finish(start time.Time, workdir string) int {
 	}
 	sort.Slice(kfObs, func(i, j int) bool { return kfObs[i]["id"].(string) < kfObs[j]["id"].(string) })
 	cov := map[string]any{
-		"evaluations":         m.evals,
-		"distinct_nontrivial": distinct,
-		"rule":                m.def.Rule,
-		"samples":             keptS,
-		"exhaustive":          false,
-		"exhaustive_domains":  exh,
-		"exhaustive_note":     "exhaustive is false for the property as a whole (its quantifier is unbounded or sampled in part); exhaustive_domains lists the finite sub-domains this run enumerated completely at run time",
-		"sections":            m.sections,
-		"histogram":           m.hist,
-		"max_observed":        m.max,
-		"max_observed_at":     m.maxAt,
+		"evaluations":                          m.evals,
+		"distinct_nontrivial":                  distinct,
+		"rule":                                 m.def.Rule,
+		"samples":                              keptS,
+		"exhaustive":                           false,
+		"exhaustive_domains":                   exh,
+		"exhaustive_note":                      "exhaustive is false for the property as a whole (its quantifier is unbounded or sampled in part); exhaustive_domains lists the finite sub-domains this run enumerated completely at run time",
+		"sections":                             m.sections,
+		"histogram":                            m.hist,
+		"max_observed":                         m.max,
+		"max_observed_at":                      m.maxAt,
 		"distinct_digest_overflow_not_counted": m.overflow,
 		"known_findings_observed":              kfObs,
 		"known_finding_aspects":                m.knownAspect,
@@ -769,6 +849,33 @@ func runReplay(args []string) int {
 	if def == nil {
 		fmt.Println("HARNESS-ERROR unknown property", w.Property)
 		return 2
+	}
+	if w.Section == "native-fuzz" {
+		cf, _ := w.Detail["crasher_file"].(string)
+		target, _ := w.Detail["target"].(string)
+		b, rerr := os.ReadFile(cf)
+		if rerr != nil || target == "" {
+			fmt.Println("HARNESS-ERROR cannot read the crasher file", cf)
+			return 2
+		}
+		dst := filepath.Join(harnessDir(), "fuzz", "testdata", "fuzz", target, "replay-"+filepath.Base(cf))
+		_ = os.MkdirAll(filepath.Dir(dst), 0o755)
+		_ = os.WriteFile(dst, b, 0o644)
+		defer os.Remove(dst)
+		targs := []string{"test"}
+		if mf := os.Getenv("VERIF_MODFLAG"); mf != "" {
+			targs = append(targs, mf)
+		}
+		targs = append(targs, "./fuzz", "-run", "^"+target+"$/replay-"+filepath.Base(cf))
+		cmd := exec.Command("go", targs...)
+		cmd.Dir = harnessDir()
+		out, err := cmd.CombinedOutput()
+		if err != nil {
+			fmt.Printf("VIOLATION property=%s replay=%s\n  aspect=%s (reproduced)\n%s\n", w.Property, args[0], w.Aspect, tail(string(out), 3000))
+			return 1
+		}
+		fmt.Println("replay of the fuzz crasher: no violation")
+		return 0
 	}
 	if w.Section == "race-detector" {
 		fmt.Println("race reports are schedule dependent: re-run the check itself (./check", w.Property, w.Tier, ") to look for it again; the stored report follows")
